@@ -52,9 +52,19 @@ var c04Kinds = []string{"shard", "shard", "directory"}
 
 type c04Step struct {
 	Target int
-	Q      query.Q
-	Opts   zoekt.SearchOptions
+	// Q is the caller's query object. A step that repeats an earlier search passes
+	// the SAME object again (callers may keep and reuse a query); the long-lived
+	// searchers only ever see Q.
+	Q query.Q
+	// Pristine is a structural copy of Q taken before any search saw it. The
+	// solo-on-fresh baseline searches a copy of Pristine, so a search that rewrites
+	// the caller's query in place cannot carry that rewriting into the baseline.
+	Pristine query.Q
+	Opts     zoekt.SearchOptions
 }
+
+// c04Clone copies the composite nodes of q (and/or/not/type/boost ...); leaves are shared.
+func c04Clone(q query.Q) query.Q { return query.Map(q, func(x query.Q) query.Q { return x }) }
 
 func (s c04Step) show() map[string]any {
 	return map[string]any{"searcher": []string{"compound shard A", "compound shard B", "directory"}[s.Target], "query": s.Q.String(), "opts": s.Opts.String()}
@@ -80,6 +90,20 @@ func TestVerif_C04(t *testing.T) {
 		settings = append(append([]string{}, settings...), "0", "3")
 	}
 	watchdog := time.Duration(rec.N(600, 3000)) * time.Second
+	// white-box part in package search: query objects reused on a bare sharded searcher
+	if bin := filepath.Join(os.Getenv("VERIF_BIN"), "c04wb.test"); os.Getenv("VERIF_BIN") != "" {
+		if _, err := os.Stat(bin); err == nil {
+			res := rec.RunChildBin(bin, "TestVerif_C04wb", "wb", "", nil, watchdog)
+			switch {
+			case res.TimedOut:
+				rec.Count("whitebox_child_killed_by_watchdog(inconclusive)", 1)
+			case res.Crashed() && res.Exit != 66:
+				rec.Violation("harness/white-box child died", res.CrashClass(), map[string]any{"tail": res.Tail})
+			}
+		} else {
+			rec.Violation("harness/white-box binary missing", bin, nil)
+		}
+	}
 	// the worlds are built once, here; the variable under test is read when a shard is
 	// loaded, not when it is written
 	worlds := filepath.Join(rec.Work, "c04worlds")
@@ -192,7 +216,6 @@ type c04World struct {
 	paths  []string
 	metas  [][2]string // pool of (field, value regexp source)
 }
-
 
 var c04MetaValues = []string{"^a$", "a", "^ab", "b", "^$", "c$", "abc|^b$", "^b"}
 var c04MetaFields = []string{"team", "k", "x"}
@@ -426,6 +449,9 @@ func (w *c04World) fresh(st c04Step) (fp, error) {
 		return fp{}, err
 	}
 	defer s.Close()
+	if st.Pristine != nil {
+		st.Q = c04Clone(st.Pristine)
+	}
 	return c04Run(s, st), nil
 }
 
@@ -460,9 +486,45 @@ func (x *c04Gen) meta() *query.Meta {
 	return &query.Meta{Field: m[0], Value: gregexp.MustCompile(m[1])}
 }
 
+// shardFilter: a top-level AND of a repository-level filter that names exactly the
+// repositories of one or two whole shards (so that the sharded searcher's shard
+// pre-selection and filter rewriting apply) and a text atom.
+func (x *c04Gen) shardFilter() query.Q {
+	R := x.g.R
+	var repos []*kit.Repo
+	for k := 0; k < 1+R.IntN(2); k++ {
+		for _, i := range x.w.groups[R.IntN(len(x.w.groups))] {
+			repos = append(repos, x.w.c.Repos[i])
+		}
+	}
+	var ids []uint32
+	var names []string
+	for _, r := range repos {
+		ids = append(ids, r.ID)
+		names = append(names, r.Name)
+	}
+	var f query.Q
+	switch R.IntN(3) {
+	case 0:
+		f = query.NewRepoIDs(ids...)
+	case 1:
+		f = query.NewRepoSet(names...)
+	default:
+		br := repos[0].Branches[R.IntN(len(repos[0].Branches))].Name
+		if R.IntN(3) == 0 {
+			br = "HEAD"
+		}
+		f = query.NewSingleBranchesRepos(br, ids...)
+	}
+	return query.NewAnd(f, x.qg.TextAtom())
+}
+
 func (x *c04Gen) query(dir bool) query.Q {
 	R := x.g.R
 	x.qg.AllowRepo = dir
+	if dir && R.IntN(5) == 0 {
+		return x.shardFilter()
+	}
 	if R.IntN(20) < 7 {
 		return x.qg.Query()
 	}
@@ -531,6 +593,7 @@ func (x *c04Gen) step() c04Step {
 	}
 	t := []int{c04A, c04A, c04B, c04Dir, c04Dir}[R.IntN(5)]
 	st := c04Step{Target: t, Q: x.query(t == c04Dir), Opts: x.opts(t == c04Dir)}
+	st.Pristine = c04Clone(st.Q)
 	x.prev = append(x.prev, st)
 	return st
 }
@@ -729,7 +792,9 @@ var c04CacheNote sync.Once
 
 func c04ObserveCache(rec *kit.Rec, w *c04World, st c04Step, before, after c04CacheView, setting string) {
 	if !before.ok || !after.ok {
-		c04CacheNote.Do(func() { rec.Note("cache_not_observable", "indexData.docMatchTreeCache not reachable through reflection") })
+		c04CacheNote.Do(func() {
+			rec.Note("cache_not_observable", "indexData.docMatchTreeCache not reachable through reflection")
+		})
 		return
 	}
 	rec.Max("max_cache_entries_seen", int64(len(after.keys)))
@@ -906,4 +971,3 @@ func c04Concurrent(rec *kit.Rec, w *c04World, h int, setting string, ans *c04Ans
 		}
 	}
 }
-
